@@ -3,11 +3,32 @@ package main
 // C05 — exact integer and rational arithmetic; comparisons agree with mathematics.
 // Correspondence: the implementation's operators on operand objects built directly in Go versus
 // the Lean model (SlipVerif.Model.Num) through the line protocol "num <op> <operand>*".
+//
+// Case families
+//   sweep (single-cause cells, seed independent, may be excused by findings/C05.json):
+//     every operator × the boundary grid in all singles and pairs (+ ratios, + floats adjacent to
+//     the grid for the comparisons), isqrt around perfect squares, expt with big bases;
+//     float-coupled cells for the comparisons: floats derived from integers (single, double, long)
+//     against rationals derived from the integer and from the float.
+//   composite (never excused; listed constructs are avoided instead):
+//     every n-ary operator × all triples over a small pool (seed independent),
+//     random integers up to 200 bits and ratios of them (seeded).
+//
+// Signature of a disagreement (fixed function, see c05Signature):
+//   op=<operator> in=<operand classes> [q=<qualifier>] out=<model result type> aspect=<aspect>
+//   operand classes: fix|big|rat|dbl|sgl|lng; with sign (+,-,0) and in argument order for the
+//   aspect wrong-value, otherwise the sorted set of kinds.
+//   qualifier: e<sign> = sign of the exponent (expt); d<sign> = sign of the divisor (floor,
+//   ceiling, truncate, round, mod, rem with two arguments); s<sign> = sign of the shift (ash).
+//   aspect: wrong-value | wrong-type:<impl type> | float-result:<float type> | wrong-boolean:<impl> |
+//           value-count | condition:<class> | no-condition | operand-mutated | go-fault |
+//           place-not-updated
 
 import (
 	"fmt"
 	"math"
 	"math/big"
+	"os"
 	"sort"
 	"strings"
 
@@ -19,8 +40,9 @@ func init() { props["C05"] = runC05 }
 
 type c05Operand struct {
 	rat  *big.Rat // exact value (also for floats)
-	kind string   // q | d | s
-	bits uint64   // for floats
+	kind string   // q | d | s | l (long-float: big.Float of precision prec)
+	bits uint64   // for single and double floats
+	prec uint     // for long-floats
 }
 
 func (o c05Operand) wire() string {
@@ -29,6 +51,9 @@ func (o c05Operand) wire() string {
 		return fmt.Sprintf("d:%x", o.bits)
 	case "s":
 		return fmt.Sprintf("s:%x", o.bits)
+	case "l":
+		// a long-float travels as its exact rational value (a dyadic rational) and its precision
+		return fmt.Sprintf("l:%d:%s", o.prec, o.rat.RatString())
 	}
 	if o.rat.IsInt() {
 		return "q:" + o.rat.Num().String()
@@ -36,27 +61,40 @@ func (o c05Operand) wire() string {
 	return "q:" + o.rat.Num().String() + "/" + o.rat.Denom().String()
 }
 
-func (o c05Operand) class() string {
-	sign := "0"
+func (o c05Operand) sign() string {
 	switch o.rat.Sign() {
 	case 1:
-		sign = "+"
+		return "+"
 	case -1:
-		sign = "-"
+		return "-"
 	}
+	return "0"
+}
+
+// rep is the representation class of the operand: fix | big | rat | dbl | sgl.
+func (o c05Operand) rep() string {
 	switch o.kind {
 	case "d":
-		return "dbl" + sign
+		return "dbl"
 	case "s":
-		return "sgl" + sign
+		return "sgl"
+	case "l":
+		return "lng"
 	}
-	if !o.rat.IsInt() {
-		return "rat" + sign
+	return c05Rep(o.rat)
+}
+
+func (o c05Operand) class() string { return o.rep() + o.sign() }
+
+// c05Rep is the canonical representation of an exact rational value: fix | big | rat.
+func c05Rep(r *big.Rat) string {
+	if !r.IsInt() {
+		return "rat"
 	}
-	if o.rat.Num().IsInt64() {
-		return "fix" + sign
+	if r.Num().IsInt64() {
+		return "fix"
 	}
-	return "big" + sign
+	return "big"
 }
 
 // object builds a fresh slip object for the operand (never shared between cases).
@@ -66,6 +104,8 @@ func (o c05Operand) object() slip.Object {
 		return slip.DoubleFloat(math.Float64frombits(o.bits))
 	case "s":
 		return slip.SingleFloat(math.Float32frombits(uint32(o.bits)))
+	case "l":
+		return (*slip.LongFloat)(new(big.Float).SetPrec(o.prec).SetRat(o.rat))
 	}
 	if o.rat.IsInt() {
 		if o.rat.Num().IsInt64() {
@@ -90,17 +130,110 @@ func c05Ratio(n, d *big.Int) c05Operand {
 	return c05Operand{rat: new(big.Rat).SetFrac(n, d), kind: "q"}
 }
 
+func c05RatioS(n, d string) c05Operand {
+	return c05Ratio(c05Int(n).rat.Num(), c05Int(d).rat.Num())
+}
+
 func c05Double(f float64) c05Operand {
-	r, _ := new(big.Rat).SetString(new(big.Float).SetFloat64(f).Text('f', -1))
-	if rr := new(big.Rat).SetFloat64(f); rr != nil {
-		r = rr
-	}
-	return c05Operand{rat: r, kind: "d", bits: math.Float64bits(f)}
+	return c05Operand{rat: new(big.Rat).SetFloat64(f), kind: "d", bits: math.Float64bits(f)}
 }
 
 func c05Single(f float32) c05Operand {
-	r := new(big.Rat).SetFloat64(float64(f))
-	return c05Operand{rat: r, kind: "s", bits: uint64(math.Float32bits(f))}
+	return c05Operand{rat: new(big.Rat).SetFloat64(float64(f)), kind: "s", bits: uint64(math.Float32bits(f))}
+}
+
+// c05Long is the long-float of the given precision nearest to n.
+func c05Long(n *big.Int, prec uint) c05Operand {
+	r, _ := new(big.Float).SetPrec(prec).SetInt(n).Rat(nil)
+	return c05Operand{rat: r, kind: "l", prec: prec}
+}
+
+// c05FloatsNear returns the floats derived from the integer n: the single, double and long floats
+// nearest to n and, for single and double, their two neighbours (infinities are left out).
+func c05FloatsNear(n *big.Int) []c05Operand {
+	var out []c05Operand
+	bf := new(big.Float).SetPrec(uint(n.BitLen() + 64)).SetInt(n)
+	if f64, _ := bf.Float64(); !math.IsInf(f64, 0) {
+		for _, x := range []float64{f64, math.Nextafter(f64, math.Inf(1)), math.Nextafter(f64, math.Inf(-1))} {
+			if !math.IsInf(x, 0) {
+				out = append(out, c05Double(x))
+			}
+		}
+	}
+	if f32, _ := bf.Float32(); !math.IsInf(float64(f32), 0) {
+		for _, x := range []float32{f32, math.Nextafter32(f32, float32(math.Inf(1))), math.Nextafter32(f32, float32(math.Inf(-1)))} {
+			if !math.IsInf(float64(x), 0) {
+				out = append(out, c05Single(x))
+			}
+		}
+	}
+	// long-floats: one that rounds n (unless n is short) and one that holds it exactly
+	out = append(out, c05Long(n, 40), c05Long(n, 64), c05Long(n, uint(n.BitLen()+8)))
+	return out
+}
+
+// c05RationalsNear returns the rationals derived from the integer n and the float f that was
+// derived from it: n and its neighbours, the exact value of f, its integer neighbours, and ratios
+// a third and a tiny bit (2^-90) away from it.
+func c05RationalsNear(n *big.Int, f c05Operand) []c05Operand {
+	seen := map[string]bool{}
+	var out []c05Operand
+	add := func(r *big.Rat) {
+		if k := r.RatString(); !seen[k] {
+			seen[k] = true
+			out = append(out, c05Operand{rat: r, kind: "q"})
+		}
+	}
+	one := big.NewRat(1, 1)
+	nr := new(big.Rat).SetInt(n)
+	add(nr)
+	add(new(big.Rat).Add(nr, one))
+	add(new(big.Rat).Sub(nr, one))
+	e := f.rat
+	add(new(big.Rat).Set(e))
+	if e.IsInt() {
+		add(new(big.Rat).Add(e, one))
+		add(new(big.Rat).Sub(e, one))
+	}
+	third := big.NewRat(1, 3)
+	tiny := new(big.Rat).SetFrac(big.NewInt(1), new(big.Int).Lsh(big.NewInt(1), 90))
+	add(new(big.Rat).Add(e, third))
+	add(new(big.Rat).Sub(e, third))
+	add(new(big.Rat).Add(e, tiny))
+	add(new(big.Rat).Sub(e, tiny))
+	return out
+}
+
+// c05FloatAnchors are the integers from which the float-coupled sweep derives its floats: the
+// boundary grid plus integers around the precision limits of the float formats (2^24, 2^53, 2^64)
+// that are NOT exactly representable, and a few ordinary ones; each with both signs.
+func c05FloatAnchors() []*big.Int {
+	var out []*big.Int
+	seen := map[string]bool{}
+	add := func(n *big.Int) {
+		for _, v := range []*big.Int{n, new(big.Int).Neg(n)} {
+			if !seen[v.String()] {
+				seen[v.String()] = true
+				out = append(out, v)
+			}
+		}
+	}
+	for _, g := range c05Grid() {
+		add(g.rat.Num())
+	}
+	p := func(e uint, d int64) *big.Int {
+		return new(big.Int).Add(new(big.Int).Lsh(big.NewInt(1), e), big.NewInt(d))
+	}
+	for _, e := range []uint{24, 25, 31, 40, 53, 54, 62, 63, 64, 65, 100, 127} {
+		for _, d := range []int64{-1, 1, 2, 3} {
+			add(p(e, d))
+		}
+	}
+	for _, s := range []string{"7", "1000", "16777215", "123456789", "3221225473", "9007199254740993", "1000000000000000001",
+		"10000000000000000001", "1000000000000000000000000000001", "340282366920938463463374607431768211455"} {
+		add(c05Int(s).rat.Num())
+	}
+	return out
 }
 
 // the boundary grid of the property's quantifier
@@ -133,7 +266,7 @@ type c05Op struct {
 	name    string
 	minArg  int
 	maxArg  int    // -1: n-ary (we use up to 3)
-	domain  string // rat | int | intint(ash: second small) | expt | cmp (floats allowed)
+	domain  string // rat | int | nat | ash | expt | cmp | cmp1 | place
 	values  int    // number of result values
 	boolean bool
 }
@@ -153,7 +286,13 @@ var c05Ops = []c05Op{
 	{">=", 1, -1, "cmp", 1, true}, {"=", 1, -1, "cmp", 1, true}, {"/=", 1, -1, "cmp", 1, true},
 	{"min", 1, -1, "cmp1", 1, false}, {"max", 1, -1, "cmp1", 1, false},
 	{"zerop", 1, 1, "cmp", 1, true}, {"plusp", 1, 1, "cmp", 1, true}, {"minusp", 1, 1, "cmp", 1, true},
+	// (incf place [delta]) / (decf place [delta]): the place is a variable holding the first operand
+	{"incf", 1, 2, "place", 1, false}, {"decf", 1, 2, "place", 1, false},
+	// slip.LessThan(a, b), the Go ordering helper of the root package (coerce.go), called directly
+	{"LessThan", 2, 2, "go", 1, true},
 }
+
+func (op c05Op) isCmp() bool { return op.domain == "cmp" || op.domain == "cmp1" }
 
 type c05Case struct {
 	op    c05Op
@@ -186,6 +325,8 @@ func (cs c05Case) lisp() string {
 			parts = append(parts, fmt.Sprintf("#d<%x>", a.bits))
 		case "s":
 			parts = append(parts, fmt.Sprintf("#s<%x>", a.bits))
+		case "l":
+			parts = append(parts, fmt.Sprintf("#l<%d:%s>", a.prec, a.rat.RatString()))
 		default:
 			parts = append(parts, a.rat.RatString())
 		}
@@ -203,17 +344,33 @@ func c05Impl(cs c05Case) (reply string, mutated bool, fault bool, msg string) {
 	src := "(multiple-value-list (" + cs.op.name
 	for i, a := range cs.args {
 		objs[i] = a.object()
-		before[i] = slip.ObjectString(objs[i])
+		before[i] = c05Show(objs[i])
 		scope.Let(slip.Symbol(names[i]), objs[i])
 		src += " " + names[i]
 	}
 	src += "))"
-	o := lib.EvalString(scope, src)
+	place := cs.op.domain == "place"
+	var o lib.Outcome
+	if cs.op.domain == "go" {
+		o = lib.Protect(func() slip.Object {
+			if slip.LessThan(objs[0], objs[1]) {
+				return slip.List{slip.True}
+			}
+			return slip.List{nil}
+		})
+	} else {
+		o = lib.EvalString(scope, src)
+	}
 	for i := range objs {
-		if slip.ObjectString(objs[i]) != before[i] {
+		// the operand object itself must be unchanged …
+		if c05Show(objs[i]) != before[i] {
 			mutated = true
 		}
-		if v := scope.Get(slip.Symbol(names[i])); slip.ObjectString(v) != before[i] {
+		// … and so must the variable that holds it (except the place of incf/decf)
+		if place && i == 0 {
+			continue
+		}
+		if v := scope.Get(slip.Symbol(names[i])); c05Show(v) != before[i] {
 			mutated = true
 		}
 	}
@@ -224,6 +381,11 @@ func c05Impl(cs c05Case) (reply string, mutated bool, fault bool, msg string) {
 	words := []string{"ok"}
 	for _, v := range list {
 		words = append(words, c05Show(v))
+	}
+	if place && len(list) == 1 {
+		if pv := c05Show(scope.Get(slip.Symbol("a"))); pv != words[1] {
+			words[1] = "place-not-updated:" + pv
+		}
 	}
 	return strings.Join(words, " "), mutated, false, ""
 }
@@ -237,6 +399,8 @@ func c05Show(v slip.Object) string {
 	case *slip.Bignum:
 		return "bignum:" + (*big.Int)(tv).String()
 	case *slip.Ratio:
+		// RatString prints a ratio object whose denominator is 1 as an integer; it is then
+		// reported as wrong-type:ratio by c05Aspect
 		return "ratio:" + (*big.Rat)(tv).RatString()
 	case slip.DoubleFloat:
 		if !math.IsNaN(float64(tv)) && !math.IsInf(float64(tv), 0) {
@@ -248,6 +412,13 @@ func c05Show(v slip.Object) string {
 			return "single-float:" + new(big.Rat).SetFloat64(float64(tv)).RatString()
 		}
 		return fmt.Sprintf("single-float:%v", float32(tv))
+	case *slip.LongFloat:
+		f := (*big.Float)(tv)
+		if !f.IsInf() {
+			r, _ := f.Rat(nil)
+			return "long-float:" + r.RatString()
+		}
+		return "long-float:" + f.String()
 	default:
 		if v == slip.True {
 			return "t"
@@ -256,7 +427,8 @@ func c05Show(v slip.Object) string {
 	}
 }
 
-// aspect classifies a disagreement between implementation reply and model reply.
+// aspect classifies a disagreement between implementation reply and model reply ("" = agree on
+// everything the property constrains).
 func c05Aspect(impl, model string) string {
 	iw, mw := strings.Fields(impl), strings.Fields(model)
 	if mw[0] == "err" {
@@ -276,13 +448,24 @@ func c05Aspect(impl, model string) string {
 		if iw[i] == mw[i] {
 			continue
 		}
-		it, iv, _ := strings.Cut(iw[i], ":")
-		_, mv, _ := strings.Cut(mw[i], ":")
-		a := "wrong-value"
-		if iv == mv {
-			a = "wrong-type:" + it
-		} else if strings.HasSuffix(it, "-float") {
-			a = "inexact:" + it
+		var a string
+		if mw[i] == "t" || mw[i] == "nil" {
+			a = "wrong-boolean:" + iw[i]
+		} else {
+			it, iv, _ := strings.Cut(iw[i], ":")
+			_, mv, _ := strings.Cut(mw[i], ":")
+			switch {
+			case it == "place-not-updated":
+				a = "place-not-updated"
+			case strings.HasSuffix(it, "-float"):
+				// a float where the model has an exact rational (whether or not the float happens
+				// to hold the exact value)
+				a = "float-result:" + it
+			case iv == mv:
+				a = "wrong-type:" + it
+			default:
+				a = "wrong-value"
+			}
 		}
 		if aspect == "" || a == "wrong-value" {
 			aspect = a
@@ -302,13 +485,24 @@ func c05Signature(cs c05Case, model string, aspect string) string {
 		// representation / condition aspects: the set of operand kinds
 		seen := map[string]bool{}
 		for _, a := range cs.args {
-			k := a.class()[:3]
+			k := a.rep()
 			if !seen[k] {
 				seen[k] = true
 				in = append(in, k)
 			}
 		}
 		sort.Strings(in)
+	}
+	q := ""
+	if len(cs.args) == 2 {
+		switch cs.op.name {
+		case "expt":
+			q = " q=e" + cs.args[1].sign()
+		case "floor", "ceiling", "truncate", "round", "mod", "rem":
+			q = " q=d" + cs.args[1].sign()
+		case "ash":
+			q = " q=s" + cs.args[1].sign()
+		}
 	}
 	out := "-"
 	mw := strings.Fields(model)
@@ -317,8 +511,101 @@ func c05Signature(cs c05Case, model string, aspect string) string {
 	} else if len(mw) > 1 {
 		out, _, _ = strings.Cut(mw[1], ":")
 	}
-	return fmt.Sprintf("op=%s in=%s out=%s aspect=%s", cs.op.name, strings.Join(in, ","), out, aspect)
+	return fmt.Sprintf("op=%s in=%s%s out=%s aspect=%s", cs.op.name, strings.Join(in, ","), q, out, aspect)
 }
+
+// ---------------------------------------------------------------------------------------------
+// Listed constructs the composite generators avoid (DESIGN §5 exclusion principle). Each rule is
+// active only while findings/C05.json lists a finding of that family, so that a repaired family
+// is exercised by the composite generators again.
+
+type c05Avoid struct {
+	bigRatio  map[string]bool // op -> a bignum meets a proper ratio in + - * / (incf, decf use +)
+	subNoDemo bool            // (- …) computed in the bignum branch with a result in fixnum range
+	floorNeg  bool            // (floor fixnum negative-fixnum)
+	exptNeg   bool            // (expt rational negative-integer)
+}
+
+func c05AvoidRules(f *lib.Findings) c05Avoid {
+	av := c05Avoid{bigRatio: map[string]bool{}}
+	for _, op := range []string{"+", "-", "*", "/"} {
+		if f.Listed("C05", "op="+op+" in=big,rat ") {
+			av.bigRatio[op] = true
+		}
+	}
+	if f.Listed("C05", "op=incf in=big,rat ") {
+		av.bigRatio["incf"] = true
+	}
+	if f.Listed("C05", "op=decf in=big,rat ") || f.Listed("C05", "op=decf in=fix,rat ") {
+		av.bigRatio["decf"] = true
+	}
+	av.subNoDemo = f.Listed("C05", "op=- in=big ") || f.Listed("C05", "op=- in=big,fix ")
+	av.floorNeg = f.Listed("C05", "op=floor in=fix")
+	for _, fd := range f.Findings {
+		if fd.Property == "C05" && strings.HasPrefix(fd.Signature, "op=expt ") && strings.Contains(fd.Signature, " q=e- ") {
+			av.exptNeg = true
+		}
+	}
+	return av
+}
+
+func c05IsBigInt(r *big.Rat) bool { return r.IsInt() && !r.Num().IsInt64() }
+
+// listed reports whether the composite case contains a listed construct.
+func (av c05Avoid) listed(cs c05Case) bool {
+	name := cs.op.name
+	switch name {
+	case "+", "-", "*", "/", "incf", "decf":
+		if len(cs.args) == 0 {
+			return false
+		}
+		// replay the left fold on exact values, tracking the representation of the accumulator
+		acc := new(big.Rat).Set(cs.args[0].rat)
+		accBig := c05IsBigInt(acc) // accumulator is held in a bignum object
+		if name == "-" && len(cs.args) == 1 {
+			acc.Neg(acc)
+			return av.subNoDemo && accBig && !c05IsBigInt(acc)
+		}
+		if name == "/" && len(cs.args) == 1 {
+			return false
+		}
+		for _, b := range cs.args[1:] {
+			operand := b.rat
+			if name == "decf" {
+				operand = new(big.Rat).Neg(b.rat) // decf negates the delta, then adds
+			}
+			if av.bigRatio[name] && ((c05IsBigInt(acc) && !operand.IsInt()) || (!acc.IsInt() && c05IsBigInt(operand))) {
+				return true
+			}
+			bothInt := acc.IsInt() && b.rat.IsInt()
+			switch name {
+			case "+", "incf":
+				acc.Add(acc, b.rat)
+			case "-", "decf":
+				acc.Sub(acc, b.rat)
+			case "*":
+				acc.Mul(acc, b.rat)
+			case "/":
+				if b.rat.Sign() == 0 {
+					return false
+				}
+				acc.Quo(acc, b.rat)
+			}
+			if name == "-" {
+				// no demotion in the bignum branch of -
+				accBig = bothInt && (accBig || c05IsBigInt(b.rat) || c05IsBigInt(acc))
+			}
+		}
+		return name == "-" && av.subNoDemo && accBig && !c05IsBigInt(acc)
+	case "floor":
+		return av.floorNeg && len(cs.args) == 2 && cs.args[0].rep() == "fix" && cs.args[1].rep() == "fix" && cs.args[1].rat.Sign() < 0
+	case "expt":
+		return av.exptNeg && len(cs.args) == 2 && cs.args[1].rat.Sign() < 0
+	}
+	return false
+}
+
+// ---------------------------------------------------------------------------------------------
 
 // c05ParseRequest rebuilds a case from its model request line (used by --replay).
 func c05ParseRequest(req string) (c05Case, bool) {
@@ -353,6 +640,15 @@ func c05ParseRequest(req string) (c05Case, bool) {
 			var bits uint64
 			_, _ = fmt.Sscanf(v, "%x", &bits)
 			cs.args = append(cs.args, c05Single(math.Float32frombits(uint32(bits))))
+		case "l":
+			ps, rs, _ := strings.Cut(v, ":")
+			var prec uint
+			_, _ = fmt.Sscanf(ps, "%d", &prec)
+			r, ok := new(big.Rat).SetString(rs)
+			if !ok || prec == 0 {
+				return cs, false
+			}
+			cs.args = append(cs.args, c05Operand{rat: r, kind: "l", prec: prec})
 		default:
 			return cs, false
 		}
@@ -375,9 +671,50 @@ func c05Replay(c *lib.Ctx) {
 	model := c.Model([]string{req})[0]
 	impl, mutated, fault, msg := c05Impl(cs)
 	fmt.Printf("replay %s\n  implementation: %s %s\n  model         : %s\n  operand mutated: %v go-fault: %v\n", cs.lisp(), impl, msg, model, mutated, fault)
-	if impl != model && c05Aspect(impl, model) != "" || mutated || fault {
+	if c05Disagree(cs, impl, model) != "" || mutated || fault {
 		c.Report(c05Signature(cs, model, "replay"), false, map[string]any{"input": cs.lisp(), "request": req, "observed": impl, "expected": model})
 	}
+}
+
+// c05Disagree returns the aspect of a disagreement the property constrains, or "".
+func c05Disagree(cs c05Case, impl, model string) string {
+	if impl == model {
+		return ""
+	}
+	aspect := c05Aspect(impl, model)
+	if strings.HasPrefix(aspect, "float-result:") && cs.hasFloat() && cs.op.domain == "cmp1" {
+		// min/max may return the float operand itself when it has the same exact value
+		iw, mw := strings.Fields(impl), strings.Fields(model)
+		_, iv, _ := strings.Cut(iw[1], ":")
+		_, mv, _ := strings.Cut(mw[1], ":")
+		if iv == mv {
+			return ""
+		}
+		return "wrong-value"
+	}
+	return aspect
+}
+
+// c05Dump writes every distinct disagreement signature of the run (with its first input) to the
+// file named by VERIF_C05_DUMP; a development aid for maintaining findings/C05.json.
+func c05Dump(c *lib.Ctx) {
+	path := os.Getenv("VERIF_C05_DUMP")
+	if path == "" {
+		return
+	}
+	var b strings.Builder
+	for _, v := range c.Violations {
+		fmt.Fprintf(&b, "%s\t%v\t%v\t%v\n", v.Signature, v.Replay["input"], v.Replay["observed"], v.Replay["expected"])
+	}
+	known := make([]string, 0, len(c.KnownHit))
+	for s := range c.KnownHit {
+		known = append(known, s)
+	}
+	sort.Strings(known)
+	for _, s := range known {
+		fmt.Fprintf(&b, "KNOWN %s\t%d\n", s, c.KnownHit[s])
+	}
+	_ = os.WriteFile(path, []byte(b.String()), 0o644)
 }
 
 func runC05(c *lib.Ctx) {
@@ -385,14 +722,15 @@ func runC05(c *lib.Ctx) {
 		c05Replay(c)
 		return
 	}
+	avoid := c05AvoidRules(c.Findings)
 	grid := c05Grid()
 	var cases []c05Case
-	small := []c05Operand{c05Int("-70"), c05Int("-64"), c05Int("-63"), c05Int("-3"), c05Int("-1"), c05Int("0"),
+	small := []c05Operand{c05Int("-130"), c05Int("-70"), c05Int("-64"), c05Int("-63"), c05Int("-3"), c05Int("-1"), c05Int("0"),
 		c05Int("1"), c05Int("2"), c05Int("5"), c05Int("62"), c05Int("63"), c05Int("64"), c05Int("65"), c05Int("130")}
 	ratios := []c05Operand{}
 	for _, s := range [][2]string{{"1", "2"}, {"-1", "2"}, {"3", "2"}, {"-3", "2"}, {"5", "2"}, {"-5", "2"}, {"7", "2"}, {"1", "3"}, {"-7", "3"},
 		{"9223372036854775807", "2"}, {"-9223372036854775809", "2"}, {"1", "9223372036854775808"}, {"18446744073709551617", "3"}} {
-		ratios = append(ratios, c05Ratio(c05Int(s[0]).rat.Num(), c05Int(s[1]).rat.Num()))
+		ratios = append(ratios, c05RatioS(s[0], s[1]))
 	}
 	floats := []c05Operand{}
 	for _, g := range grid {
@@ -408,19 +746,28 @@ func runC05(c *lib.Ctx) {
 		}
 	}
 	floats = append(floats, c05Double(0.5), c05Double(-0.5), c05Double(1.5), c05Double(0.1), c05Single(0.1))
+	// integers off the grid where a product, a doubled remainder or a square crosses 2^63, and
+	// neighbours of grid points that no float format holds exactly
+	extra := []c05Operand{}
+	for _, v := range []string{"3037000499", "3037000500", "4294967295", "4294967297", "2147483649", "16777217",
+		"6074000999", "4611686018427387905", "6917529027641081856", "9223372036854775806", "9007199254740993"} {
+		extra = append(extra, c05Int(v), c05Int("-"+v))
+	}
+	intPool := append(append([]c05Operand{}, grid...), extra...)
+	gridRatios := append(append([]c05Operand{}, intPool...), ratios...)
 
 	// --- single-cause sweep: the grid exhaustively in all pairs (and singles) per operator
 	for _, op := range c05Ops {
-		unaryPool := append(append([]c05Operand{}, grid...), ratios...)
+		unaryPool := gridRatios
 		switch op.domain {
 		case "int", "nat", "ash":
-			unaryPool = grid
+			unaryPool = intPool
 		}
 		if op.minArg <= 1 && (op.maxArg == -1 || op.maxArg >= 1) {
 			for _, a := range unaryPool {
 				cases = append(cases, c05Case{op, []c05Operand{a}, true})
 			}
-			if op.domain == "cmp" || op.domain == "cmp1" {
+			if op.isCmp() {
 				for _, a := range floats {
 					cases = append(cases, c05Case{op, []c05Operand{a}, true})
 				}
@@ -432,21 +779,23 @@ func runC05(c *lib.Ctx) {
 		if op.maxArg == -1 || op.maxArg >= 2 {
 			var left, right []c05Operand
 			switch op.domain {
-			case "rat":
-				left, right = append(append([]c05Operand{}, grid...), ratios...), append(append([]c05Operand{}, grid...), ratios...)
+			case "rat", "place", "go":
+				left, right = gridRatios, gridRatios
 			case "int":
-				left, right = grid, grid
+				left, right = intPool, intPool
 			case "ash":
-				left, right = grid, small
+				left, right = intPool, small
 			case "expt":
-				left, right = append(append([]c05Operand{}, grid[:9]...), ratios[:9]...), small
+				// bases: 0, ±1, ±2, ±3, ±2^31, two bignums, the first nine ratios
+				left = append(append(append([]c05Operand{}, grid[:9]...), c05Int("18446744073709551616"), c05Int("-18446744073709551617")), ratios[:9]...)
+				right = small
 			case "cmp", "cmp1":
-				left = append(append(append([]c05Operand{}, grid...), ratios...), floats...)
+				left = append(append([]c05Operand{}, gridRatios...), floats...)
 				right = left
 			}
 			for _, a := range left {
 				for _, b := range right {
-					if (op.domain == "cmp" || op.domain == "cmp1") && a.kind != "q" && b.kind != "q" && a.kind != b.kind {
+					if op.isCmp() && a.kind != "q" && b.kind != "q" && a.kind != b.kind {
 						// mixed float formats compared with each other are outside the grid
 						continue
 					}
@@ -454,16 +803,89 @@ func runC05(c *lib.Ctx) {
 				}
 			}
 		}
+		if op.name == "isqrt" {
+			// perfect squares and their neighbours around the float64 and fixnum precision limits
+			for _, k := range []string{"94906265", "94906266", "2147483648", "3037000499", "3037000500", "4294967296", "4294967297", "18446744073709551616", "1000000000000000000000000000001"} {
+				kk := c05Int(k).rat.Num()
+				sq := new(big.Int).Mul(kk, kk)
+				for _, d := range []int64{-1, 0, 1} {
+					cases = append(cases, c05Case{op, []c05Operand{c05Big(new(big.Int).Add(sq, big.NewInt(d)))}, true})
+				}
+			}
+		}
 	}
-	// --- random: integers up to 200 bits and ratios thereof
-	nRandom := c.Scale(30000, 600000)
+	// --- single-cause sweep, float-coupled cells: for comparisons, min and max a float derived
+	// FROM an integer (nearest single/double/long float and neighbours) against rationals derived
+	// from that integer and from the float (n, n±1, the float's exact value, its integer
+	// neighbours, ratios a third and 2^-90 away), in both argument orders
+	nCoupled := 0
+	for _, op := range c05Ops {
+		if !op.isCmp() || op.maxArg != -1 {
+			continue
+		}
+		for _, n := range c05FloatAnchors() {
+			for _, f := range c05FloatsNear(n) {
+				for _, r := range c05RationalsNear(n, f) {
+					cases = append(cases, c05Case{op, []c05Operand{r, f}, true}, c05Case{op, []c05Operand{f, r}, true})
+					nCoupled += 2
+				}
+			}
+		}
+	}
+	nSweep := len(cases)
+
+	// --- composite, seed independent: all triples over a small pool for the n-ary operators
+	half, mhalf := c05RatioS("1", "2"), c05RatioS("-3", "2")
+	tripleInt := []c05Operand{c05Int("0"), c05Int("1"), c05Int("-1"), c05Int("2"), c05Int("6"), c05Int("4611686018427387904"),
+		c05Int("9223372036854775807"), c05Int("-9223372036854775808"), c05Int("9223372036854775808")}
+	tripleRat := append(append([]c05Operand{}, tripleInt...), half, mhalf)
+	tripleCmp := append(append([]c05Operand{}, tripleRat...), c05Double(0.5), c05Double(9223372036854775808.0), c05Single(1))
+	avoided := 0
+	for _, op := range c05Ops {
+		if op.maxArg != -1 {
+			continue
+		}
+		pool := tripleRat
+		switch {
+		case op.domain == "int":
+			pool = tripleInt
+		case op.isCmp():
+			pool = tripleCmp
+		}
+		for _, a := range pool {
+			for _, b := range pool {
+				for _, d := range pool {
+					cs := c05Case{op, []c05Operand{a, b, d}, false}
+					if avoid.listed(cs) {
+						avoided++
+						continue
+					}
+					cases = append(cases, cs)
+				}
+			}
+		}
+	}
+	nTriples := len(cases) - nSweep
+
+	// --- composite, seeded: integers up to 200 bits and ratios thereof
+	nRandom := c.Scale(30000, 2000000)
 	randOperand := func(dom string) c05Operand {
 		bits := []int{8, 31, 33, 62, 63, 64, 65, 100, 200}[c.Rng.Intn(9)]
 		n := c.Rng.BigBits(bits)
 		switch dom {
 		case "int", "ash":
+			if c.Rng.Chance(15) {
+				return grid[c.Rng.Intn(len(grid))]
+			}
 			return c05Big(n)
 		case "nat":
+			if c.Rng.Chance(20) {
+				// a perfect square or a neighbour
+				k := new(big.Int).Abs(c.Rng.BigBits([]int{16, 27, 31, 32, 33, 50, 100}[c.Rng.Intn(7)]))
+				k.Mul(k, k)
+				k.Add(k, big.NewInt(int64(c.Rng.Intn(3)-1)))
+				return c05Big(k.Abs(k))
+			}
 			return c05Big(n.Abs(n))
 		}
 		if c.Rng.Chance(40) {
@@ -479,7 +901,7 @@ func runC05(c *lib.Ctx) {
 		}
 		return c05Big(n)
 	}
-	for i := 0; i < nRandom; i++ {
+	randCase := func() c05Case {
 		op := c05Ops[c.Rng.Intn(len(c05Ops))]
 		n := op.minArg
 		if n == 0 {
@@ -491,6 +913,21 @@ func runC05(c *lib.Ctx) {
 			n += c.Rng.Intn(op.maxArg - op.minArg + 1)
 		}
 		var args []c05Operand
+		if op.isCmp() && op.maxArg == -1 && c.Rng.Chance(35) {
+			// float-coupled: a float derived from a random integer against rationals derived from
+			// that integer and from the float, anywhere in a chain of two or three arguments
+			m := c.Rng.BigBits([]int{12, 23, 24, 25, 26, 31, 33, 52, 53, 54, 55, 62, 63, 64, 65, 100, 128, 200}[c.Rng.Intn(18)])
+			fs := c05FloatsNear(m)
+			f := fs[c.Rng.Intn(len(fs))]
+			rs := c05RationalsNear(m, f)
+			args = append(args, rs[c.Rng.Intn(len(rs))])
+			if c.Rng.Chance(40) {
+				args = append(args, rs[c.Rng.Intn(len(rs))])
+			}
+			at := c.Rng.Intn(len(args) + 1)
+			args = append(args[:at], append([]c05Operand{f}, args[at:]...)...)
+			return c05Case{op, args, false}
+		}
 		for j := 0; j < n; j++ {
 			switch {
 			case op.domain == "ash" && j == 1:
@@ -499,62 +936,115 @@ func runC05(c *lib.Ctx) {
 				args = append(args, c05Big(big.NewInt(int64(c.Rng.Intn(24)-8))))
 			case op.domain == "expt":
 				args = append(args, randOperand("rat"))
-			case (op.domain == "cmp" || op.domain == "cmp1") && c.Rng.Chance(25) && j == n-1:
+			case op.isCmp() && c.Rng.Chance(25) && j == n-1:
 				args = append(args, floats[c.Rng.Intn(len(floats))])
+			case op.isCmp() && c.Rng.Chance(10):
+				// a float adjacent to a random integer
+				f, _ := new(big.Float).SetInt(c.Rng.BigBits([]int{53, 54, 63, 64, 65, 100}[c.Rng.Intn(6)])).Float64()
+				if c.Rng.Bool() {
+					args = append(args, c05Double(math.Nextafter(f, math.Inf(c.Rng.Intn(3)-1))))
+				} else {
+					args = append(args, c05Single(float32(f)))
+				}
+			case op.domain == "place" || op.domain == "go":
+				args = append(args, randOperand("rat"))
 			default:
 				args = append(args, randOperand(op.domain))
 			}
 		}
-		cases = append(cases, c05Case{op, args, false})
+		return c05Case{op, args, false}
 	}
-
-	// --- run model and implementation
-	reqs := make([]string, len(cases))
-	for i, cs := range cases {
-		reqs[i] = cs.request()
-	}
-	replies := c.Model(reqs)
-	agree := 0
-	for i, cs := range cases {
-		impl, mutated, fault, msg := c05Impl(cs)
-		model := replies[i]
-		nontrivial := false
-		for _, a := range cs.args {
-			if !a.rat.IsInt() || a.rat.Num().BitLen() >= 31 {
-				nontrivial = true
+	// --- run model and implementation, batch by batch (bounds memory in the thorough tier)
+	agree, total := 0, 0
+	runBatch := func(batch []c05Case) {
+		reqs := make([]string, len(batch))
+		for i, cs := range batch {
+			reqs[i] = cs.request()
+		}
+		replies := c.Model(reqs)
+		for i, cs := range batch {
+			impl, mutated, fault, msg := c05Impl(cs)
+			model := replies[i]
+			nontrivial := false
+			for _, a := range cs.args {
+				if !a.rat.IsInt() || a.rat.Num().BitLen() >= 31 {
+					nontrivial = true
+				}
 			}
+			c.Ev.Case(reqs[i], nontrivial)
+			c.Ev.Hist("op", cs.op.name)
+			c.Ev.Hist("nargs", fmt.Sprint(len(cs.args)))
+			for _, a := range cs.args {
+				c.Ev.Hist("operand_class", a.class())
+			}
+			mw := strings.Fields(model)
+			if mw[0] == "err" {
+				c.Ev.Hist("model_outcome", strings.Join(mw, " "))
+			} else if len(mw) > 1 {
+				t, _, _ := strings.Cut(mw[1], ":")
+				c.Ev.Hist("model_outcome", t)
+			}
+			if total%25013 == 0 {
+				c.Ev.Sample(map[string]string{"case": cs.lisp(), "impl": impl, "model": model})
+			}
+			total++
+			if fault {
+				c.Report(c05Signature(cs, model, "go-fault"), cs.sweep, map[string]any{"input": cs.lisp(), "request": reqs[i], "observed": impl + " " + msg, "expected": model, "expected_from": "model:num"})
+				continue
+			}
+			if mutated {
+				c.Report(c05Signature(cs, model, "operand-mutated"), cs.sweep, map[string]any{"input": cs.lisp(), "request": reqs[i], "observed": "an operand object changed its value during the call", "expected": "operands unchanged", "expected_from": "property statement"})
+			}
+			aspect := c05Disagree(cs, impl, model)
+			if aspect == "" {
+				agree++
+				continue
+			}
+			c.Report(c05Signature(cs, model, aspect), cs.sweep, map[string]any{"input": cs.lisp(), "request": reqs[i], "observed": impl, "expected": model, "expected_from": "model:num",
+				"relies_on": []string{"SlipVerif.Theorems.C05", "SlipVerif.Theorems.C05Impl"}})
 		}
-		c.Ev.Case(reqs[i], nontrivial)
-		c.Ev.Hist("op", cs.op.name)
-		if i%(len(cases)/10+1) == 0 {
-			c.Ev.Sample(map[string]string{"case": cs.lisp(), "impl": impl, "model": model})
-		}
-		if fault {
-			c.Report(c05Signature(cs, model, "go-fault"), true, map[string]any{"input": cs.lisp(), "request": reqs[i], "observed": impl + " " + msg, "expected": model, "expected_from": "model:num"})
-			continue
-		}
-		if mutated {
-			c.Report(c05Signature(cs, model, "operand-mutated"), true, map[string]any{"input": cs.lisp(), "request": reqs[i], "observed": "an operand object changed its printed value during the call", "expected": "operands unchanged", "expected_from": "property statement"})
-		}
-		if impl == model {
-			agree++
-			continue
-		}
-		aspect := c05Aspect(impl, model)
-		if aspect == "" {
-			agree++
-			continue
-		}
-		if strings.HasPrefix(aspect, "wrong-type:") && strings.HasSuffix(aspect, "-float") && cs.hasFloat() {
-			agree++ // min/max may return the float operand itself: same exact value
-			continue
-		}
-		c.Report(c05Signature(cs, model, aspect), true, map[string]any{"input": cs.lisp(), "request": reqs[i], "observed": impl, "expected": model, "expected_from": "model:num",
-			"relies_on": []string{"SlipVerif.Theorems.C05"}})
 	}
-	c.Ev.Coverage["traces_validated_against_impl"] = len(cases)
+	runBatch(cases) // sweep + triples
+	cases = nil
+
+	// --- composite, seeded: random cases in batches
+	nGenerated := 0
+	for done := 0; done < nRandom; {
+		var batch []c05Case
+		for ; done < nRandom && len(batch) < 100000; done++ {
+			cs := randCase()
+			for try := 0; try < 50 && avoid.listed(cs); try++ {
+				avoided++
+				cs = randCase()
+			}
+			if avoid.listed(cs) {
+				continue
+			}
+			if cs.hasFloat() {
+				// mixed float formats compared with each other are outside the quantifier
+				kinds := map[string]bool{}
+				for _, a := range cs.args {
+					if a.kind != "q" {
+						kinds[a.kind] = true
+					}
+				}
+				if len(kinds) > 1 {
+					continue
+				}
+			}
+			batch = append(batch, cs)
+		}
+		nGenerated += len(batch)
+		runBatch(batch)
+	}
+	nRandom = nGenerated
+	c05Dump(c)
+	c.Ev.Coverage["traces_validated_against_impl"] = total
 	c.Ev.Coverage["agreements"] = agree
-	c.Ev.Coverage["sweep_cases"] = len(cases) - nRandom
+	c.Ev.Coverage["sweep_cases"] = nSweep
+	c.Ev.Coverage["sweep_float_coupled_cases"] = nCoupled
+	c.Ev.Coverage["triple_cases"] = nTriples
 	c.Ev.Coverage["random_cases"] = nRandom
-	c.Ev.Coverage["rule"] = "cases = (operator, operand tuple); sweep = boundary grid in all pairs/singles per operator (exhaustive, seed independent) + random integers/ratios up to 200 bits; non-trivial = some operand is a ratio or has magnitude >= 2^31; distinct by request line"
+	c.Ev.Coverage["composite_cases_avoided_listed_construct"] = avoided
+	c.Ev.Coverage["rule"] = "cases = (operator, operand tuple); sweep = boundary grid in all pairs/singles per operator (exhaustive, seed independent); composite = all triples over a small pool for the n-ary operators + random integers/ratios up to 200 bits (constructs listed in findings/C05.json are avoided, never excused); non-trivial = some operand is a ratio or has magnitude >= 2^31; distinct by request line"
 }
